@@ -345,7 +345,7 @@ impl Check for EosCheck {
         }
     }
     fn required(&self, _tier: Tier) -> Vec<&'static str> {
-        vec!["fault:timeout_fired", "fault:peer_drop", "wait_returned_true", "wait_returned_false", "peer_dropped_during_wait_loop", "verdict_on_exactly_full_ring_after_writer_left"]
+        vec!["fault:timeout_fired", "fault:peer_drop", "wait_returned_true", "wait_returned_false", "peer_dropped_during_wait_loop", "verdict_on_exactly_full_ring_after_writer_left", "committed_samples_straddle_the_ring_end"]
     }
     fn run(&self, src: &mut Src, ctx: &mut RunCtx) -> RunResult {
         let kind = *src.pick(&[EosKind::ReaderWaits, EosKind::ReaderEofPoll, EosKind::WriterWaits, EosKind::NcReaderWaits, EosKind::NcReaderEofPoll, EosKind::NcWriterWaits]);
@@ -369,9 +369,16 @@ impl Check for EosCheck {
             3 => 5000, // more than the capacity of a one-page u32 stream
             _ => src.range(1, 8),
         };
+        // Where in the ring the scenario starts: half of the reader shapes begin
+        // close enough to the ring end for the committed samples to straddle it
+        // (a verdict computed from the part before the end alone is wrong).
+        let preroll = if matches!(kind, EosKind::ReaderWaits | EosKind::ReaderEofPoll) && src.chance(1, 2) { 1024 - src.range(1, (total + 2).min(1023)) } else { 0 };
+        if preroll > 0 && preroll + total > 1024 {
+            ctx.count("committed_samples_straddle_the_ring_end");
+        }
         let cfg = SchedCfg::draw(src, if deep { 60_000 } else { 20_000 }, false);
         let fair = cfg.fair();
-        ctx.ev(|| format!("C04 kind={kind:?} pieces={piece_sizes:?} need={need} cfg={cfg:?}"));
+        ctx.ev(|| format!("C04 kind={kind:?} pieces={piece_sizes:?} need={need} preroll={preroll} cfg={cfg:?}"));
         if ctx.sample.is_none() {
             ctx.sample = Some(json!({"shape": format!("{kind:?}"), "pieces": piece_sizes, "need": need, "strategy": format!("{:?}", cfg.strategy), "timeout_bias": cfg.timeout_bias}));
         }
@@ -389,6 +396,12 @@ impl Check for EosCheck {
                     rustradio::verif::set_stream_size(4096);
                     let (w, r) = new_stream::<u32>();
                     rustradio::verif::set_stream_size(0);
+                    if preroll > 0 {
+                        let wb = w.write_buf().expect("write_buf");
+                        wb.produce(preroll, &[]);
+                        let (b, _) = r.read_buf().expect("read_buf");
+                        b.consume(preroll);
+                    }
                     let s3 = s2.clone();
                     let ps = piece_sizes.clone();
                     let writer = spawn("writer", move || {
